@@ -285,4 +285,92 @@ def hcStep (fixed : Bool) : HcSt → HcEv → HcSt
 
 def hcRun (fixed : Bool) (evs : List HcEv) : HcSt := evs.foldl (hcStep fixed) .running
 
+/-! ## `Agent.reportUsagePeriodically` / `sendUsageReport`
+
+```go
+for { select { case <-agent.ctx.Done(): return
+               case <-timer.Chan(): agent.sendUsageReport() } }          // idle
+sendUsageReport:
+  report := NewReport()                      // errNoData: back to idle
+  isSent, err := SendCustomMessage(report)
+  ErrCustomMessagePending: select { case <-ctx.Done(): return            // waitPending
+                                    case <-isSent: isSent, err = SendCustomMessage(report) (once) }
+  other error: return
+  select { case <-ctx.Done(): return; case <-isSent: completeSend() }    // waitSent
+```
+One *own step* of the loop = one select firing and everything up to the next select.  When more
+than one case of a select is ready Go chooses at random: `choice` (true = the `ctx.Done()` case).
+The OpAMP client is a parameter: the outcome of each `SendCustomMessage` call comes from `script`
+(nothing left: error); the environment closes the returned channel (or never does).
+-/
+inductive SendOut
+  | ok (closed : Bool)      -- accepted; the returned channel is already closed / still open
+  | pend (closed : Bool)    -- ErrCustomMessagePending + the pending message's channel
+  | fail
+  deriving DecidableEq, Repr
+
+inductive ULoc | idle | waitPending | waitSent | exited
+  deriving DecidableEq, Repr
+
+structure USt where
+  loc : ULoc := .idle
+  tick : Bool := false        -- a tick is waiting in the ticker's channel (capacity 1)
+  cancelled : Bool := false   -- Agent.Stop has cancelled the context
+  chClosed : Bool := false    -- the channel the loop is waiting on has been closed
+  cur : Bool := false         -- usageTracker.currentDataPoints non-empty
+  last : Bool := false        -- usageTracker.lastDataPoints non-empty
+  script : List SendOut := []
+  calls : Nat := 0
+  deriving DecidableEq, Repr
+
+def USt.nextOut (s : USt) : SendOut := s.script.headD .fail
+
+def USt.called (s : USt) : USt := { s with script := s.script.tail, calls := s.calls + 1 }
+
+/-- the ticker case: `sendUsageReport` up to its first blocking point -/
+def sendReport (s : USt) : USt :=
+  if !(s.cur || s.last) then { s with loc := .idle }                 -- errNoData
+  else
+    match s.nextOut with
+    | .ok c => { s.called with cur := false, last := true, loc := .waitSent, chClosed := c }
+    | .pend c => { s.called with cur := false, last := true, loc := .waitPending, chClosed := c }
+    | .fail => { s.called with cur := false, last := true, loc := .idle }
+
+/-- the retry after the pending message has gone out -/
+def retrySend (s : USt) : USt :=
+  match s.nextOut with
+  | .ok c => { s.called with loc := .waitSent, chClosed := c }
+  | _ => { s.called with loc := .idle }
+
+/-- one own step; `none`: the loop is blocked (or has exited) -/
+def ustep (choice : Bool) (s : USt) : Option USt :=
+  match s.loc with
+  | .exited => none
+  | .idle =>
+    if s.cancelled && (!s.tick || choice) then some { s with loc := .exited }
+    else if s.tick then some (sendReport { s with tick := false })
+    else none
+  | .waitPending =>
+    if s.cancelled && (!s.chClosed || choice) then some { s with loc := .idle }   -- return ctx.Err()
+    else if s.chClosed then some (retrySend s)
+    else none
+  | .waitSent =>
+    if s.cancelled && (!s.chClosed || choice) then some { s with loc := .idle }
+    else if s.chClosed then some { s with loc := .idle, last := false }           -- completeSend
+    else none
+
+/-- the loop runs on its own, one step per element of `choices` (a blocked loop stays where it is) -/
+def urun (choices : List Bool) (s : USt) : USt :=
+  choices.foldl (fun s ch => (ustep ch s).getD s) s
+
+/-- environment: a tick of `reportUsageInterval` (the ticker never blocks: capacity 1) -/
+def USt.ticked (s : USt) : USt := { s with tick := true }
+/-- environment: the OpAMP client has sent the message the loop is waiting for -/
+def USt.sent (s : USt) : USt :=
+  if s.loc = .waitPending ∨ s.loc = .waitSent then { s with chClosed := true } else s
+/-- environment: the health-check loop (or anyone) adds usage -/
+def USt.added (s : USt) : USt := { s with cur := true }
+/-- `Agent.Stop`: `cancel()` -/
+def USt.stop (s : USt) : USt := { s with cancelled := true }
+
 end Refinery.Model.Shutdown
